@@ -31,7 +31,7 @@ def one(v):
     return v, out
 
 
-with ThreadPoolExecutor(max_workers=4) as ex:
+with ThreadPoolExecutor(max_workers=int(os.environ.get("REFAC_JOBS", "6"))) as ex:
     for v, out in ex.map(one, vs):
         print("%s %s: %s" % (pid, v, "all 20 checks silent" if not out else ""))
         for o in out:
